@@ -37,7 +37,8 @@ def gen_conversation(rnd, nreloads, setsize, nkeys, disjoint=False):
         r = (fam, bits(rnd, ln, fam), ln, min(32 if fam == "4" else 128, ln + rnd.randint(0, 8)), rnd.randint(1, 9))
         if r not in pool:
             pool.append(r)
-    kpool = list(dict.fromkeys((rnd.randint(1, 9), rnd.randint(1, 40)) for _ in range(3 * nkeys + 3)))
+    # key ids: the SKI (what the key table hashes) comes from the id's upper bits - many different SKIs, a few keys per SKI
+    kpool = list(dict.fromkeys((rnd.randint(1, 9), rnd.randint(1, 240) * 256 + rnd.randint(0, 2)) for _ in range(3 * nkeys + 3)))
     common = pool[:max(1, setsize // 8)]          # in every set: answers that never change
     sets = []
     for k in range(nreloads + 1):
@@ -45,14 +46,17 @@ def gen_conversation(rnd, nreloads, setsize, nkeys, disjoint=False):
             body = pool[(k % 2) * setsize + len(common):][:setsize]
         else:
             body = rnd.sample(pool[len(common):], setsize)
-        ks = rnd.sample(kpool, min(nkeys, len(kpool)))
+        nk = nkeys if nkeys <= 8 else rnd.choice([5, nkeys // 2, nkeys])      # key tables of different sizes meet in a reload
+        # big key runs: 30 keys are in every set (queried all the time: a miss at any moment is a violation), the rest varies
+        kcommon = kpool[:30] if nkeys > 8 else []
+        ks = kcommon + rnd.sample(kpool[len(kcommon):], min(nk, len(kpool) - len(kcommon)))
         sets.append((common + [r for r in body if r not in common], ks))
     pre_p = []
     for _ in range(4):
         fam = rnd.choice("46")
         ln = rnd.randint(4, 16)
         pre_p.append((fam, bits(rnd, ln, fam), ln, ln + 8, rnd.randint(1, 9), 2))
-    pre_k = [(rnd.randint(1, 9), rnd.randint(41, 50), 2) for _ in range(2)]
+    pre_k = [(rnd.randint(1, 9), rnd.randint(241, 250) * 256, 2) for _ in range(2)]
     qs = []
     for fam, b, ln, mx, asn in rnd.sample(pool, min(len(pool), 60)) + common[:3]:
         w = 32 if fam == "4" else 128
@@ -61,7 +65,7 @@ def gen_conversation(rnd, nreloads, setsize, nkeys, disjoint=False):
         qs.append("q %s %s %d %d" % (fam, qb, ql, rnd.choice([asn, asn, rnd.randint(1, 9)])))
     for fam, b, ln, mx, asn, src in pre_p[:2]:
         qs.append("q %s %s %d %d" % (fam, b, ln + 2, asn))
-    for asn, kid in kpool[:10]:
+    for asn, kid in (kpool[:40] if nkeys > 8 else kpool[:10]) + kpool[60:70] + kpool[200:206]:   # the id's bits 8..15 are the SKI: distinct ids = distinct keys
         qs.append("k %d %d" % (asn, kid))
     qs.append("k %d %d" % (pre_k[0][0], pre_k[0][1]))
     lines = ["cfg 3600 7200 600 0"]
@@ -189,7 +193,8 @@ def run(chk):
     # ---- supporting: readers against the real reload ----
     plan = [("corpus/" + n, t) for n, t in corpus_scripts()]
     for i in range(2 if quick else 6):
-        lines, evs, meta = gen_conversation(rnd, nreloads=500 if quick else 1500, setsize=rnd.choice([150, 400]), nkeys=8, disjoint=(i % 2 == 1))
+        lines, evs, meta = gen_conversation(rnd, nreloads=500 if quick else 1500, setsize=rnd.choice([150, 400]), nkeys=(8 if i % 2 == 0 else rnd.choice([40, 70, 140])), disjoint=(i % 2 == 1))
+        # odd runs: enough router keys for the old and the new key table to be at different steps of the hash table's growth
         plan.append(("gen%d %s" % (i, meta), "\n".join(script_text(lines, evs, readers)) + "\n"))
     totals = {"reader_ops": 0, "key_ops": 0, "during_reload": 0, "during_reload_answer_differs": 0, "reloads_done": 0, "callbacks": 0}
     runs, findings = [], {}
